@@ -15,28 +15,41 @@ from . import qc
 from .common import bits, f2b, unbits
 from .qc import torch
 
-from qucumber.observables import NeighbourInteraction, ObservableBase, SigmaX, SigmaZ, System  # noqa: E402
+from qucumber.observables import NeighbourInteraction, ObservableBase, SigmaX, SigmaY, SigmaZ, SWAP, System  # noqa: E402
 from qucumber.observables.utils import _update_statistics  # noqa: E402
 
 FILES = ["qucumber/observables/utils.py", "qucumber/observables/observable.py", "qucumber/observables/system.py",
          "qucumber/nn_states/neural_state.py"]
 EXTRA_TRUSTED = ["C13: nn_state.sample is an arbitrary function of (call number, call) in the model; the harness replays the recorded run (returned tensor identities, per-draw observable values); torch.var_mean is assumed to be the unbiased two-pass variance up to rounding"]
-REQUIRED_THEOREMS = ["C13_merge", "C13_stream", "C13_count", "C13_schedule", "C13_system", "C13_statistics_one_pass"]
+REQUIRED_THEOREMS = ["C13_merge", "C13_merge_empty_left", "C13_merge_empty_right", "C13_stream", "C13_count", "C13_schedule",
+                     "C13_system", "C13_system_init", "C13_system_dict", "C13_system_nodup", "C13_statistics_one_pass",
+                     "C13_fromSamples", "C13_system_fromSamples", "C13_sample"]
 THEOREMS = {
-    "merge": "C13_merge, C13_merge_empty_left",
+    "merge": "C13_merge, C13_merge_empty_left, C13_merge_empty_right",
     "stream": "C13_stream, C13_statistics_one_pass",
     "count": "C13_count, C13_count_chains",
     "schedule": "C13_schedule, C13_schedule_threaded, C13_schedule_start, C13_schedule_untouched",
-    "system": "C13_system, C13_system_count",
+    "system": "C13_system_dict, C13_system_nodup, C13_system, C13_system_count",
+    "keys": "C13_system_init",
     "from": "C13_fromSamples",
+    "sysfrom": "C13_system_fromSamples, C13_system_init",
+    "sample": "C13_sample",
 }
+# the FINDING of the audit round (proposed/F-C13-same-name-merged.md): reported only when two observables with the same name but
+# different per-sample values were given to one System (the earlier one's statistics are silently replaced by the later one's)
+SIG_MERGED = "System/same-name-observables-merged"
 RULE = ("merge cases: a random dataset (2..9 values; small integers, or gaussians) and EVERY split into two consecutive parts "
-        "(incl. an empty left part) and every chunking into T equal chunks; statistics cases: (num_samples, num_chains, burn_in, "
+        "(incl. an empty left part and an empty right part) and every chunking into T equal chunks; statistics cases: (num_samples, "
+        "num_chains, burn_in, "
         "steps, user chains or not [dtype float64/32/16, int64, uint8, bool; contiguous, strided row/column views of a larger buffer, "
         "transposed, stride-0 expand], overwrite, set of observables, single/System) with num_samples <= 9, num_chains <= 10 (all pairs in "
         "thorough, a seeded subset plus the special pairs in quick), burn_in/steps in 0..3, real Gibbs sampling on a small random "
-        "state with nn_state.sample wrapped on the instance. non-trivial iff at least two draws are merged and the captured "
-        "values are not all equal; distinct by hash of the case")
+        "Positive / Complex / Density state with nn_state.sample wrapped on the instance; observables: integer-weight mocks, SigmaX/Y/Z "
+        "(plain and absolute), NeighbourInteraction, SWAP, composites - under the library's own names, incl. sets in which two "
+        "observables share a name (SigmaX() with SigmaX(absolute=True), equal NeighbourInteractions / composites, SWAP([0]) with "
+        "SWAP([1]), same-named mocks); from_samples cases: statistics_from_samples of each observable / of System(...) on batches of "
+        "0..9 rows; sample cases: ObservableBase.sample with every argument form. non-trivial iff at least two draws are merged and the "
+        "captured values are not all equal (statistics), >= 2 rows with different values (from_samples); distinct by hash of the case")
 
 
 # ---------------------------------------------------------------- helpers
@@ -114,14 +127,18 @@ def merge_case(ctx, case):
     M, V, _ = exact_stats(xs)
     ctx.case(case, nontrivial=len(set(xs)) > 1 and N >= 3, sample={"part": "merge", "xs": xs})
     ctx.count("merge_dataset"); ctx.count(f"merge_N={N}"); ctx.count("merge_integral" if integral else "merge_float")
-    for s in range(0, N):
+    for s in range(0, N + 1):
         a, b = xs[:s], xs[s:]
         sub = {**case, "split": s}
         if s == 0:
             ma, va = 0.0, 0.0  # the state before the first draw
         else:
             ma, va = chunk_stats(a)
-        mb, vb = chunk_stats(b)
+        if s == N:
+            mb, vb = 0.0, 0.0  # an empty right part, described like the empty running state (C13_merge_empty_right)
+            ctx.count("merge_split_right_empty")
+        else:
+            mb, vb = chunk_stats(b)
         r = _update_statistics(ma, va, len(a), mb, vb, len(b))
         ok = (r[2] == N and stat_close(r[0], M, scale) and
               var_close(r[1], V, scale))
@@ -170,49 +187,69 @@ def merge_case(ctx, case):
 
 
 def formula_case(ctx, case):
-    """the merge formula on arbitrary small-integer operands (not statistics of any dataset): every float operation
-    is exact up to the final correctly-rounded divisions, so model and code must agree bit for bit"""
+    """the merge formula on arbitrary small-integer operands (not statistics of any dataset): model and code compute the same real
+    number; compared with a relative tolerance of 1e-12 (NOT bit for bit: an algebraically equal re-arrangement of the formula is as good)"""
     a = case["args"]
     ctx.case(case, nontrivial=a[2] > 0 and a[5] > 0, sample={"part": "formula", "args": a})
     ctx.count("formula_case")
+    if a[2] == 0 and a[5] == 0:
+        return  # nothing merged with nothing: never happens in a statistics run, the returned placeholder is not constrained by the property
     va = float("nan") if a[1] is None else float(a[1])
     vb = float("nan") if a[4] is None else float(a[4])
     r = _update_statistics(float(a[0]), va, a[2], float(a[3]), vb, a[5])
     if ctx.driver is not None:
         m = ctx.driver.call("c13.update", avg_a=f2b(a[0]), var_a=f2b(va), len_a=a[2], avg_b=f2b(a[3]), var_b=f2b(vb), len_b=a[5])
-        canon = lambda x: "nan" if math.isnan(float(x)) else f2b(float(x) + 0.0)  # noqa: E731
-        ctx.point("formula", "aux", [canon(r[0]), canon(r[1]), r[2]],
-                  [canon(unbits([m["mean"]])[0]), canon(unbits([m["variance"]])[0]), m["n"]], case, exact=True, sig="formula/exact")
-    if a[2] == 0 and a[5] == 0:
-        ctx.oracle("both empty -> (0.0, 0.0, 0)", tuple(r) == (0.0, 0.0, 0), case, sig="formula/both-empty")
+        ms = max(1.0, abs(float(a[0])), abs(float(a[3])))
+        vs = max(1.0, abs(va) if not math.isnan(va) else 0.0, abs(vb) if not math.isnan(vb) else 0.0, (float(a[3]) - float(a[0])) ** 2)
+        ctx.point("formula.mean", "aux", [r[0]], unbits([m["mean"]]), case, scale=ms, rtol=1e-12, atol=1e-12, sig="formula/mean")
+        ctx.point("formula.variance", "aux", [r[1]], unbits([m["variance"]]), case, scale=vs, rtol=1e-12, atol=1e-12, sig="formula/variance")
+        ctx.point("formula.len", "aux", r[2], m["n"], case, exact=True, sig="formula/len")
 
 
 # ---------------------------------------------------------------- part B: statistics / System.statistics
-def make_obs(spec, n, name):
+def make_obs(spec, n, idx):
+    """the observable of a spec, under the LIBRARY's own name (mocks: spec["name"], default O<idx>)"""
     t = spec["type"]
+    mname = spec.get("name", f"O{idx}")
     if t == "mock":
-        o = MockObs(spec["w"], spec["off"], name)
+        o = MockObs(spec["w"], spec["off"], mname)
     elif t == "SigmaZ":
-        o = SigmaZ()
+        o = SigmaZ(absolute=spec.get("absolute", False))
     elif t == "SigmaX":
-        o = SigmaX()
+        o = SigmaX(absolute=spec.get("absolute", False))
+    elif t == "SigmaY":
+        o = SigmaY(absolute=spec.get("absolute", False))
     elif t == "NI":
-        o = NeighbourInteraction(periodic_bcs=spec["periodic"], c=1)
+        o = NeighbourInteraction(periodic_bcs=spec["periodic"], c=spec.get("c", 1))
+    elif t == "SWAP":
+        o = SWAP(spec["A"])
     elif t == "composite":
         # -NI - 3*SigmaZ + 1 - 2*mock   (built with the real operators)
-        o = -NeighbourInteraction(c=1) - 3 * SigmaZ() + 1 - 2 * MockObs(spec["w"], spec["off"], name + "m")
+        o = -NeighbourInteraction(c=1) - 3 * SigmaZ() + 1 - 2 * MockObs(spec["w"], spec["off"], mname + "m")
     elif t == "composite2":
-        o = 0.5 * (SigmaX() + MockObs(spec["w"], spec["off"], name + "m")) - np.float64(2.0)
+        o = 0.5 * (SigmaX() + MockObs(spec["w"], spec["off"], mname + "m")) - np.float64(2.0)
+    elif t == "composite3":
+        # same NAME "(SigmaX + 1)" whether or not the leaf takes absolute values
+        o = SigmaX(absolute=spec.get("absolute", False)) + 1
     else:
         raise ValueError(t)
-    o.name = name
     return o
 
 
 def make_state(s):
     if s["kind"] == "pos":
         return qc.make_positive(s["n"], s["h"], s["am"])
+    if s["kind"] == "dens":
+        return qc.make_density(s["n"], s["h"], s["a"], s["am"], s["ph"])
     return qc.make_complex(s["n"], s["h"], s["am"], s["ph"])
+
+
+def first_occ(names):
+    out = []
+    for nm in names:
+        if nm not in out:
+            out.append(nm)
+    return out
 
 
 class Recorder:
@@ -291,8 +328,12 @@ def make_user(rows, n, form):
 def stats_case(ctx, case):
     n = case["state"]["n"]
     st = make_state(case["state"])
-    names = [f"O{i}" for i in range(len(case["obs"]))]
-    obs = [make_obs(s, n, nm) for s, nm in zip(case["obs"], names)]
+    obs = [make_obs(s, n, i) for i, s in enumerate(case["obs"])]
+    names = [o.name for o in obs]          # the library's own names: a System keys its observables by them
+    keys = first_occ(names)
+    last = {nm: max(i for i, x in enumerate(names) if x == nm) for nm in keys}   # index of the last observable given with that name
+    if len(keys) < len(names):
+        ctx.count("same_named_observables_in_set")
     user_before = None
     form = case.get("init_form", "f64")
     if case["init"] is not None:
@@ -329,7 +370,11 @@ def stats_case(ctx, case):
         torch.manual_seed(case["torch_seed"])
         user, backing = new_user()
         r, err, calls = record_run(st, user, lambda u: sysobj.statistics(st, initial_state=u, **kwargs))
-        runs.append((None if r is None else [r[nm] for nm in names], err, calls, list(range(len(obs))), user, backing))
+        sys_keys = None if r is None else list(r.keys())
+        if r is not None:
+            ctx.oracle("System.statistics returns one entry per distinct name", sorted(r.keys()) == sorted(keys), case,
+                       detail={"impl": list(r.keys()), "expected": keys}, sig="system/keys", theorem=THEOREMS["keys"])
+        runs.append((None if r is None else [r.get(nm) for nm in names], err, calls, list(range(len(obs))), user, backing))
     else:
         # one observable at a time; every run is recorded and checked on its own chain states
         for i, o in enumerate(obs):
@@ -344,7 +389,7 @@ def stats_case(ctx, case):
     desc["init_rows"] = None if case["init"] is None else len(case["init"])
     nontriv = False
     sig0 = "system" if system else "single"
-    ctx.count(f"stats_{sig0}"); ctx.count(f"ns={ns}"); ctx.count(f"nc={nc}"); ctx.count(f"burn_in={burn}"); ctx.count(f"steps={steps}")
+    ctx.count(f"stats_{sig0}"); ctx.count(f"state={case['state']['kind']}"); ctx.count(f"ns={ns}"); ctx.count(f"nc={nc}"); ctx.count(f"burn_in={burn}"); ctx.count(f"steps={steps}")
     ctx.count("user_chains_overwrite" if (user_before is not None and ow) else ("user_chains_clone" if user_before is not None else "fresh_chains"))
     for s in case["obs"]:
         ctx.count(f"obs={s['type']}")
@@ -404,33 +449,52 @@ def stats_case(ctx, case):
                 M, V, N = exact_stats(allv)
                 sc = max(1.0, max(abs(x) for x in allv))
                 d = r[j]
-                ok = (d["num_samples"] == N == T * c_exp and N >= ns and stat_close(d["mean"], M, sc, 1e-9)
-                      and var_close(d["variance"], V, sc) and se_close(d["std_error"], V, N, sc))
-                ctx.oracle("result == one-pass statistics of every drawn sample", bool(ok), case,
-                           detail={"impl": {k: float(x) for k, x in d.items()}, "expected": [float(M), None if V is None else float(V), N],
-                                   "obs": oi}, sig=f"{sig0}/one-pass", theorem=THEOREMS["system"] if system else THEOREMS["stream"])
+                ok = d is not None and (d["num_samples"] == N == T * c_exp and N >= ns and stat_close(d["mean"], M, sc, 1e-9)
+                                        and var_close(d["variance"], V, sc) and se_close(d["std_error"], V, N, sc))
+                # "each observable gets the result it would get alone on the same chain states": when it does not, and a LATER observable
+                # of the set carries the same name with different per-sample values, this is the known merge of same-named observables
+                merged = system and any(k != oi and names[k] == names[oi] and vals[k] != vals[j] for k in range(len(obs)))
+                ctx.oracle("result == one-pass statistics of every drawn sample" if not (merged and not ok) else
+                           "System: observables sharing a name are merged into one entry (this one does not get its own statistics)", bool(ok), case,
+                           detail={"impl": None if d is None else {k: float(x) for k, x in d.items()},
+                                   "expected": [float(M), None if V is None else float(V), N], "obs": oi, "names": names},
+                           sig=(SIG_MERGED if merged else f"{sig0}/one-pass"), theorem=THEOREMS["system"] if system else THEOREMS["stream"])
+                if merged:
+                    ctx.count("same_name_different_values_merged")
                 if T >= 2 and len(set(allv)) > 1:
                     nontriv = True
         # ---- model
         if ctx.driver is not None:
             m = ctx.driver.call("c13.statistics", num_samples=ns, num_chains=nc, burn_in=burn, steps=steps, overwrite=ow,
                                 system=system, clone_id=1, user_id=0, init_rows=None if user_before is None else len(case["init"]),
-                                ret_ids=[cl["ret"] for cl in calls], chunks=[[bits(ch) for ch in v] for v in vals])
+                                ret_ids=[cl["ret"] for cl in calls], chunks=[[bits(ch) for ch in v] for v in vals],
+                                names=[names[i] for i in idxs])
             mres = m["result"] if system else m["result"][0] if m["result"] else {"error": "no observable"}
             merr = mres.get("error") if isinstance(mres, dict) else None
             ctx.point("error kind", "property", err, merr, case, exact=True, sig=f"{sig0}/error-kind", theorem=THEOREMS["count"])
             if err is None and merr is None:
-                mstats = mres["stats"] if system else [mres["stats"]]
                 icalls = [{"num_samples": cl["num_samples"], "k": cl["k"], "init": cl["init"], "overwrite": cl["overwrite"]} for cl in calls]
                 ctx.point("sampler calls (num_samples, k, initial_state identity, overwrite)", "property", icalls, mres["calls"], case,
                           exact=True, theorem=THEOREMS["schedule"], sig=f"{sig0}/calls")
                 ctx.point("T and c", "property", [len(calls), c_exp], [m["T"], m["c"]], case, exact=True, theorem=THEOREMS["count"],
                           sig=f"{sig0}/T-c")
-                for j, oi in enumerate(idxs):
+                if system:
+                    # the dictionary: one entry per distinct name; the entry of a name is compared with the one-pass statistics of the LAST
+                    # observable given with that name (C13_system_dict) and with the model's streaming result for that entry
+                    ctx.point("dictionary keys (as a set)", "property", sorted(sys_keys), sorted(mres["names"]), case,
+                              exact=True, theorem=THEOREMS["keys"], sig="system/keys")
+                    # names given several times with DIFFERENT values: which of them survives is not constrained by the property (the merge
+                    # itself is the finding reported above) - those entries are not compared with the model
+                    conflict = {nm for nm in keys if any(vals[k] != vals[last[nm]] for k in range(len(obs)) if names[k] == nm)}
+                    entries = [(r[last[nm]], last[nm], m["onepass"][last[nm]], mres["stats"][q]) for q, nm in enumerate(mres["names"])
+                               if nm in last and r[last[nm]] is not None and nm not in conflict]
+                else:
+                    entries = [(r[0], idxs[0], m["onepass"][0], mres["stats"])]
+                for (d, oi, m_one, m_stream) in entries:
+                    j = idxs.index(oi)
                     allv = [x for ch in vals[j] for x in ch]
                     sc = max(1.0, max(abs(x) for x in allv))
-                    d = r[j]
-                    for key, lvl, mm in (("onepass", "property", m["onepass"][j]), ("stream", "aux", mstats[j])):
+                    for key, lvl, mm in (("onepass", "property", m_one), ("stream", "aux", m_stream)):
                         if "error" in mm:
                             ctx.point(f"{key}", lvl, "ok", mm["error"], case, exact=True, sig=f"{sig0}/{key}")
                             continue
@@ -447,37 +511,253 @@ def stats_case(ctx, case):
                      "obs": [s["type"] for s in case["obs"]]})
 
 
+# ---------------------------------------------------------------- part C: statistics_from_samples (both classes), ObservableBase.sample
+def from_samples_case(ctx, case):
+    """`obs.statistics_from_samples(state, batch)` for every observable of the set, or `System(*obs).statistics_from_samples`, on a batch of
+    0..9 rows: one-pass statistics of the observable's own per-sample values (exact rational oracle + model `fromSamples` /
+    `systemFromSamples`), ZeroDivisionError for the empty batch, nan variance / std_error for one row."""
+    n = case["state"]["n"]
+    st = make_state(case["state"])
+    obs = [make_obs(sp, n, i) for i, sp in enumerate(case["obs"])]
+    names = [o.name for o in obs]
+    keys = first_occ(names)
+    last = {nm: max(i for i, x in enumerate(names) if x == nm) for nm in keys}
+    rows = case["rows"]
+    B = len(rows)
+    system = case["system"]
+    sig0 = "sysfrom" if system else "from"
+    t = torch.tensor(rows, dtype=torch.double).reshape(B, n)
+    vals = [o.apply(st, t.clone()).detach().numpy().astype(np.float64).tolist() for o in obs]
+    ctx.count(f"from_samples_{'system' if system else 'single'}"); ctx.count(f"from_samples_B={B}")
+    ctx.count(f"state={case['state']['kind']}")
+    for sp in case["obs"]:
+        ctx.count(f"obs={sp['type']}")
+    ctx.case({k: case[k] for k in ("obs", "rows", "system")} | {"state": case["state"]["kind"]},
+             nontrivial=B >= 2 and any(len(set(v)) > 1 for v in vals),
+             sample={"part": "from_samples", "system": system, "B": B, "obs": [sp["type"] for sp in case["obs"]], "state": case["state"]["kind"]})
+
+    def check(d, oi, label):
+        v = vals[oi]
+        M, V, N = exact_stats(v)
+        sc = max(1.0, max(abs(x) for x in v))
+        ok = d is not None and (d["num_samples"] == N == B and stat_close(d["mean"], M, sc, 1e-9) and var_close(d["variance"], V, sc)
+                                and se_close(d["std_error"], V, N, sc))
+        merged = system and any(k != oi and names[k] == names[oi] and vals[k] != v for k in range(len(obs)))
+        ctx.oracle(f"{label} == one-pass statistics of the observable's values on the batch", bool(ok), case,
+                   detail={"impl": None if d is None else {k: float(x) for k, x in d.items()},
+                           "expected": [float(M), None if V is None else float(V), N], "obs": oi, "names": names},
+                   sig=(SIG_MERGED if merged else f"{sig0}/one-pass"), theorem=THEOREMS["sysfrom" if system else "from"])
+        return sc, V
+
+    def points(d, mm, oi, label):
+        sc = max(1.0, max(abs(x) for x in vals[oi]))
+        th = THEOREMS["sysfrom" if system else "from"]
+        ctx.point(f"{label}.mean", "property", [d["mean"]], unbits([mm["mean"]]), case, scale=sc, theorem=th, sig=f"{sig0}/model")
+        ctx.point(f"{label}.variance", "property", [d["variance"]], unbits([mm["variance"]]), case,
+                  scale=var_scale(exact_stats(vals[oi])[1], sc), theorem=th, sig=f"{sig0}/model")
+        ctx.point(f"{label}.std_error", "property", [float(d["std_error"])], unbits([mm["std_error"]]), case, scale=sc, rtol=1e-5, atol=1e-7,
+                  theorem=th, sig=f"{sig0}/model")
+        ctx.point(f"{label}.num_samples", "property", d["num_samples"], mm["n"], case, exact=True, theorem=th, sig=f"{sig0}/model")
+
+    def empty_ok(d):
+        """statistics of NOTHING: the property does not say what they are - the library raises ZeroDivisionError (modelled); a result with
+        num_samples == 0 and undefined (nan) statistics would be as good"""
+        return d["num_samples"] == 0 and all(math.isnan(float(d[k])) for k in ("mean", "variance", "std_error"))
+
+    if system:
+        sysobj = System(*obs)
+        r, err = None, None
+        try:
+            r = sysobj.statistics_from_samples(st, t)
+        except Exception as e:  # noqa: BLE001
+            err = type(e).__name__
+        if B == 0:
+            ctx.oracle("System.statistics_from_samples on an empty batch: ZeroDivisionError (or undefined statistics with num_samples 0)",
+                       err == "ZeroDivisionError" or (err is None and all(empty_ok(d) for d in r.values())), case,
+                       detail={"impl": err if err else {k: {kk: float(x) for kk, x in d.items()} for k, d in r.items()}},
+                       sig=f"{sig0}/empty-batch", theorem="C13_fromSamples_empty")
+        else:
+            ctx.oracle("System.statistics_from_samples does not raise on a non-empty batch", err is None, case, detail={"impl": err},
+                       sig=f"{sig0}/error-oracle", theorem=THEOREMS["sysfrom"])
+        if err is None and B > 0:
+            ctx.oracle("System.statistics_from_samples returns one entry per distinct name",
+                       sorted(r.keys()) == sorted(keys), case, detail={"impl": list(r.keys()), "expected": keys}, sig=f"{sig0}/keys",
+                       theorem=THEOREMS["keys"])
+            for oi in range(len(obs)):
+                check(r.get(names[oi]), oi, "System.statistics_from_samples")
+        if ctx.driver is not None and (B > 0 or err is not None):
+            m = ctx.driver.call("c13.system_from_samples", names=names, values=[bits(v) for v in vals])
+            ctx.point("System.statistics_from_samples: error kind", "property", err, m.get("error"), case, exact=True,
+                      sig=f"{sig0}/error-kind", theorem="C13_fromSamples_empty")
+            if err is None and "error" not in m:
+                ctx.point("System.statistics_from_samples: keys (as a set)", "property", sorted(r.keys()), sorted(m["names"]), case, exact=True,
+                          sig=f"{sig0}/keys", theorem=THEOREMS["keys"])
+                conflict = {nm for nm in keys if any(vals[k] != vals[last[nm]] for k in range(len(obs)) if names[k] == nm)}
+                for q, nm in enumerate(m["names"]):
+                    if nm in r and nm in last and nm not in conflict:
+                        points(r[nm], m["stats"][q], last[nm], f"System.statistics_from_samples[{q}]")
+    else:
+        for oi, o in enumerate(obs):
+            d, err = None, None
+            t2 = t.clone()
+            try:
+                d = o.statistics_from_samples(st, t2)
+            except Exception as e:  # noqa: BLE001
+                err = type(e).__name__
+            if B == 0:
+                ctx.oracle("statistics_from_samples on an empty batch: ZeroDivisionError (or undefined statistics with num_samples 0)",
+                           err == "ZeroDivisionError" or (err is None and empty_ok(d)), case,
+                           detail={"impl": err if err else {k: float(x) for k, x in d.items()}, "obs": oi}, sig=f"{sig0}/empty-batch",
+                           theorem="C13_fromSamples_empty")
+            else:
+                ctx.oracle("statistics_from_samples does not raise on a non-empty batch", err is None, case, detail={"impl": err, "obs": oi},
+                           sig=f"{sig0}/error-oracle", theorem=THEOREMS["from"])
+            ctx.oracle("statistics_from_samples leaves the batch unchanged", bool(torch.equal(t2, t)), case, sig=f"{sig0}/no-mutation")
+            if err is None and B > 0:
+                check(d, oi, "statistics_from_samples")
+            if ctx.driver is not None and (B > 0 or err is not None):
+                m = ctx.driver.call("c13.from_samples", xs=bits(vals[oi]))
+                ctx.point("statistics_from_samples: error kind", "property", err, m.get("error"), case, exact=True, sig=f"{sig0}/error-kind",
+                          theorem="C13_fromSamples_empty")
+                if err is None and "error" not in m:
+                    points(d, m, oi, "statistics_from_samples")
+
+
+def sample_case(ctx, case):
+    """`ObservableBase.sample(nn_state, k, num_samples, initial_state, overwrite)`: exactly ONE sampler call that receives the caller's
+    arguments unchanged (the caller's tensor itself), and the returned values are the observable on the tensor that call returned."""
+    n = case["state"]["n"]
+    st = make_state(case["state"])
+    o = make_obs(case["obs"][0], n, 0)
+    form = case.get("init_form", "f64")
+    user, backing, user_before = None, None, None
+    if case["init"] is not None:
+        user, backing = make_user(case["init"], n, form)
+        user_before = user.clone()
+    k, ns, ow, call_form = case["k"], case["ns"], case["overwrite"], case["call_form"]
+    ctx.count("sample_case"); ctx.count(f"sample_call_form={call_form}"); ctx.count(f"state={case['state']['kind']}")
+    ctx.count(f"obs={case['obs'][0]['type']}")
+    ctx.case({k_: case[k_] for k_ in ("obs", "k", "ns", "overwrite", "call_form", "init")} | {"state": case["state"]["kind"]},
+             nontrivial=ns >= 2 or (case["init"] is not None and len(case["init"]) >= 2),
+             sample={"part": "sample", "k": k, "ns": ns, "overwrite": ow, "call_form": call_form,
+                     "init_rows": None if case["init"] is None else len(case["init"]), "obs": case["obs"][0]["type"]})
+    torch.manual_seed(case["torch_seed"])
+
+    def run(u):
+        if call_form == "default":          # num_samples, initial_state, overwrite left at their defaults (1, None, False)
+            return o.sample(st, k)
+        if call_form == "positional":
+            return o.sample(st, k, ns, u, ow)
+        return o.sample(st, k=k, num_samples=ns, initial_state=u, overwrite=ow)
+    if call_form == "default":
+        ns, ow, user, user_before = 1, False, None, None
+    r, err, calls = record_run(st, user, run)
+    exp_call = {"num_samples": ns, "k": k, "init": None if user is None else 0, "overwrite": ow}
+    got = [{"num_samples": cl["num_samples"], "k": cl["k"], "init": cl["init"], "overwrite": cl["overwrite"]} for cl in calls]
+    ctx.oracle("sample: no exception, exactly one sampler call receiving (num_samples, k, the caller's tensor, overwrite) unchanged",
+               err is None and got == [exp_call], case, detail={"error": err, "calls": got, "expected": [exp_call]}, sig="sample/call",
+               theorem=THEOREMS["sample"])
+    if err is not None or len(calls) != 1:
+        return
+    want = o.apply(st, calls[0]["ret_copy"].clone()).detach().numpy().astype(np.float64)
+    gotv = r.detach().numpy().astype(np.float64)
+    sc = max([1.0] + [abs(float(x)) for x in want])
+    ctx.oracle("sample: the values are the observable on the tensor the sampler returned",
+               gotv.shape == want.shape and bool(np.all(np.abs(gotv - want) <= 1e-12 * sc)), case,
+               detail={"impl": gotv.tolist(), "expected": want.tolist()}, sig="sample/values", theorem=THEOREMS["sample"])
+    exp_rows = len(case["init"]) if user is not None else ns
+    ctx.oracle("sample: one value per chain (rows of initial_state if given, else num_samples)", len(gotv) == exp_rows, case,
+               detail={"impl": len(gotv), "expected": exp_rows}, sig="sample/count", theorem=THEOREMS["sample"])
+    if user is not None:
+        if not ow:
+            ctx.oracle("sample, overwrite=False: the caller's initial_state is untouched", bool(torch.equal(user, user_before)), case,
+                       sig="sample/untouched", theorem=THEOREMS["sample"])
+        elif form in IN_PLACE_FORMS:
+            ctx.oracle("sample, overwrite=True: the caller's tensor holds the returned chain state",
+                       bool(torch.equal(user, calls[0]["ret_copy"])), case, sig="sample/overwrite-final", theorem=THEOREMS["sample"])
+    if ctx.driver is not None:
+        m = ctx.driver.call("c13.sample", k=k, num_samples=ns, overwrite=ow, has_init=user is not None, ret_id=calls[0]["ret"],
+                            values=bits(want))
+        ctx.point("sample: the sampler call", "property", got[0], m["call"], case, exact=True, theorem=THEOREMS["sample"], sig="sample/model-call")
+        ctx.point("sample: values", "property", gotv, unbits(m["values"]), case, scale=sc, theorem=THEOREMS["sample"], sig="sample/model-values")
+
+
 # ---------------------------------------------------------------- generation
-def gen_obs_specs(rng, n):
+def gen_obs_specs(rng, n, k=None):
     def mock():
         return {"type": "mock", "w": [rng.randrange(-3, 4) for _ in range(n)],
                 "off": rng.randrange(-2, 3) if rng.random() < 0.85 else rng.choice([1e8, -3e7, 1e9])}
-    pool = [mock, mock, lambda: {"type": "SigmaZ"}, lambda: {"type": "SigmaX"},
-            lambda: {"type": "NI", "periodic": rng.random() < 0.5},
+    pool = [mock, mock, lambda: {"type": "SigmaZ", "absolute": rng.random() < 0.2}, lambda: {"type": "SigmaX", "absolute": rng.random() < 0.2},
+            lambda: {"type": "SigmaY", "absolute": rng.random() < 0.2},
+            lambda: {"type": "NI", "periodic": rng.random() < 0.5, "c": rng.randrange(1, max(2, n))},
+            lambda: {"type": "SWAP", "A": sorted(rng.sample(range(n), rng.randrange(1, n)))},
             lambda: {**mock(), "type": "composite"}, lambda: {**mock(), "type": "composite2"}]
-    return [rng.choice(pool)() for _ in range(rng.randrange(1, 4))]
+    return [rng.choice(pool)() for _ in range(k if k is not None else rng.randrange(1, 4))]
 
 
-def gen_state(rng):
-    n = rng.randrange(2, 4)
+def gen_same_named(rng, n):
+    """a set of observables in which (at least) two carry the same library name"""
+    w = lambda: [rng.randrange(-3, 4) for _ in range(n)]  # noqa: E731
+    ni = {"type": "NI", "periodic": rng.random() < 0.5, "c": rng.randrange(1, max(2, n))}
+    mk = {"type": "mock", "w": w(), "off": rng.randrange(-2, 3), "name": "M"}
+    comp = {"type": "composite", "w": w(), "off": rng.randrange(-2, 3), "name": "Q"}
+    pauli = rng.choice(["SigmaX", "SigmaY", "SigmaZ"])
+    choices = [
+        [{"type": pauli}, {"type": pauli, "absolute": True}],                                  # different values, one name
+        [{"type": pauli, "absolute": True}, {"type": "SigmaZ" if pauli != "SigmaZ" else "SigmaX"}, {"type": pauli}],   # name at positions 0 and 2
+        [dict(ni), dict(ni)],                                                                   # equal observables: merging is harmless
+        [dict(comp), dict(comp)],                                                               # two equal composites
+        [dict(comp), {**comp, "w": w(), "off": 5}],                                              # composites of one name, different mocks inside
+        [{"type": "SWAP", "A": [0]}, {"type": "SWAP", "A": [1]}],                                # SWAP's name ignores the subsystem
+        [dict(mk), {**mk, "w": w(), "off": mk["off"] + 1}, {"type": "mock", "w": w(), "off": 0, "name": "M2"}],
+        [{"type": "composite3"}, {"type": "composite3", "absolute": True}],                     # "(SigmaX + 1)" twice
+        [{"type": pauli}, {"type": pauli}, {"type": pauli, "absolute": True}, {"type": pauli}],  # the last one wins: plain again
+    ]
+    return rng.choice(choices)
+
+
+def gen_state(rng, n=None):
+    n = n if n is not None else rng.randrange(2, 4)
     h = rng.randrange(1, 3)
-    kind = rng.choice(["pos", "pos", "cplx"])
+    kind = rng.choice(["pos", "pos", "cplx", "dens"])
+    if kind == "dens":
+        a = rng.randrange(1, 3)
+        sc = rng.choice([0.1, 1.0])
+        return {"kind": kind, "n": n, "h": h, "a": a, "am": qc.rand_prbm_params(rng, n, h, a, sc), "ph": qc.rand_prbm_params(rng, n, h, a, 0.5)}
     s = {"kind": kind, "n": n, "h": h, "am": qc.rand_rbm_params(rng, n, h, rng.choice([0.1, 1.0]))}
     if kind == "cplx":
         s["ph"] = qc.rand_rbm_params(rng, n, h, 0.5)
     return s
 
 
-def gen_stats_case(rng, ns, nc, system, user_rows=None, overwrite=False, init_form=None):
+def gen_stats_case(rng, ns, nc, system, user_rows=None, overwrite=False, init_form=None, same_named=False):
     st = gen_state(rng)
     n = st["n"]
-    case = {"part": "statistics", "state": st, "obs": gen_obs_specs(rng, n), "ns": ns, "nc": nc,
+    case = {"part": "statistics", "state": st, "obs": gen_same_named(rng, n) if same_named else gen_obs_specs(rng, n), "ns": ns, "nc": nc,
             "burn_in": rng.randrange(0, 4), "steps": rng.randrange(0, 4),
             "init": None if user_rows is None else [[rng.randrange(2) for _ in range(n)] for _ in range(user_rows)],
             "overwrite": overwrite, "system": system, "torch_seed": rng.randrange(1 << 30)}
     if init_form is not None:
         case["init_form"] = init_form
     return case
+
+
+def gen_from_samples_case(rng, B, system, same_named=False):
+    st = gen_state(rng)
+    n = st["n"]
+    return {"part": "from_samples", "state": st, "obs": gen_same_named(rng, n) if same_named else gen_obs_specs(rng, n),
+            "rows": [[rng.randrange(2) for _ in range(n)] for _ in range(B)], "system": system}
+
+
+def gen_sample_case(rng):
+    st = gen_state(rng)
+    n = st["n"]
+    ur = rng.choice([None, None, 1, 2, 3])
+    ow = rng.random() < 0.5
+    return {"part": "sample", "state": st, "obs": gen_obs_specs(rng, n, 1), "k": rng.randrange(0, 5), "ns": rng.randrange(1, 6),
+            "init": None if ur is None else [[rng.randrange(2) for _ in range(n)] for _ in range(ur)], "overwrite": ow,
+            "init_form": rng.choice(["f64", "f64", "f32", "cols", "rows", "T", "i64"]),
+            "call_form": rng.choice(["keyword", "keyword", "keyword", "positional", "positional", "default"]), "torch_seed": rng.randrange(1 << 30)}
 
 
 SPECIAL_PAIRS = [(1, 0), (1, 1), (1, 5), (2, 1), (5, 1), (7, 3), (9, 4), (6, 0), (4, 10), (6, 3), (9, 9), (8, 5), (3, 2)]
@@ -497,12 +777,14 @@ def gen_cases(ctx, thorough):
         N = rng.randrange(3, 10)
         yield {"part": "merge", "xs": [off + float(rng.randrange(-6, 7)) for _ in range(N)]}
         yield {"part": "merge", "xs": [off + round(rng.gauss(0, 2), 2) for _ in range(N)]}
-    yield {"part": "formula", "args": [0, 0, 0, 0, 0, 0]}
     yield {"part": "formula", "args": [3, None, 0, 4, None, 1]}
     for _ in range(300 if thorough else 40):
         la, lb = rng.randrange(0, 6), rng.randrange(0, 6)
-        yield {"part": "formula", "args": [rng.randrange(-9, 10), None if (la == 1 and rng.random() < 0.5) else rng.randrange(0, 20), la,
-                                           rng.randrange(-9, 10), None if (lb == 1 and rng.random() < 0.5) else rng.randrange(0, 20), lb]}
+        # operands as a statistics run can produce them: an empty chunk is (0, 0) [the initial running state], a one-value chunk has an
+        # undefined (nan) variance [torch.var_mean], otherwise any mean and any variance >= 0
+        opa = [0, 0, 0] if la == 0 else [rng.randrange(-9, 10), None if la == 1 else rng.randrange(0, 20), la]
+        opb = [0, 0, 0] if lb == 0 else [rng.randrange(-9, 10), None if lb == 1 else rng.randrange(0, 20), lb]
+        yield {"part": "formula", "args": opa + opb}
     # part B
     pairs = [(ns, nc) for ns in range(1, 10) for nc in range(0, 11)]
     if not thorough:
@@ -538,6 +820,19 @@ def gen_cases(ctx, thorough):
                        "rows": None if br is None else [[rng.randrange(2) for _ in range(n_)] for _ in range(br)],
                        "overwrite": rng.random() < 0.5, "torch_seed": rng.randrange(1 << 30)}
         yield c
+    # sets in which observables share a name (System keys them by name): System runs, plus single runs of the same sets
+    for i in range(40 if thorough else 10):
+        ns, nc = rng.choice(SPECIAL_PAIRS[3:] + [(rng.randrange(2, 10), rng.randrange(0, 6))])
+        yield gen_stats_case(rng, ns, nc, i % 5 != 4, user_rows=rng.choice([None, None, 2]), overwrite=rng.random() < 0.5, same_named=True)
+    # statistics_from_samples of every observable / of System(...) on batches of 0..9 rows
+    for B in list(range(0, 10)) * (3 if thorough else 1):
+        yield gen_from_samples_case(rng, B, False)
+        yield gen_from_samples_case(rng, B, True, same_named=(B % 3 == 2))
+    yield {**gen_from_samples_case(rng, 0, True), "obs": []}       # an empty System on an empty batch: {}
+    yield {**gen_from_samples_case(rng, 3, True), "obs": []}
+    # ObservableBase.sample
+    for _ in range(60 if thorough else 14):
+        yield gen_sample_case(rng)
     # malformed stream: nothing requested / no chains
     yield gen_stats_case(rng, 0, 0, False)
     yield gen_stats_case(rng, 0, 3, True)
@@ -551,6 +846,10 @@ def one_case(ctx, case):
         merge_case(ctx, case)
     elif case["part"] == "formula":
         formula_case(ctx, case)
+    elif case["part"] == "from_samples":
+        from_samples_case(ctx, case)
+    elif case["part"] == "sample":
+        sample_case(ctx, case)
     else:
         stats_case(ctx, case)
 
